@@ -91,6 +91,11 @@ struct Params {
     long: usize,
     /// where, inside that frame's header, the peer's stream is cut into two deliveries (1..=8 bytes of it in the first)
     hdr_cut: usize,
+    /// what the peers announce: 0 = distinct identities, 1 = an Identity property of length 0 (what libzmq peers without
+    /// a routing id send), 2 = no Identity property. With 1 and 2 every connection must still be kept apart.
+    anon: u8,
+    /// this many extra tiny frames in each peer's second message (0 = none): frame COUNT beyond any per-call work bound
+    many: usize,
 }
 
 fn scenario(pr: &Params) -> Verdict {
@@ -107,9 +112,24 @@ fn scenario(pr: &Params) -> Verdict {
     for p in 0..pr.peers {
         let c = e3::raw_conn(&format!("P{}", p));
         let id = format!("ID{}", p).into_bytes();
-        c.send(&rc::handshake(ty.peer_type(), Some(&id)));
+        c.send(&rc::handshake(ty.peer_type(), match pr.anon { 0 => Some(&id[..]), 1 => Some(&b""[..]), _ => None }));
         let speaks = !pr.late_few || p + 1 == pr.peers || p == pr.peers / 2;
         let mut msgs = if speaks { peer_messages(ty, p, pr.msgs) } else { Vec::new() };
+        if pr.many > 0 && msgs.len() > 1 {
+            let last = msgs.len() == 2;
+            let (wire, exp) = &mut msgs[1];
+            let extra: Vec<Vec<u8>> = (0..pr.many).map(|i| if i % 2 == 0 { vec![] } else { vec![b'a' + (i % 26) as u8] }).collect();
+            let at = if last { wire.len() - 1 } else { wire.len() };
+            for (k, f) in extra.iter().enumerate() {
+                wire.insert(at + k, f.clone());
+            }
+            if let Some(e) = exp {
+                let at = if last { e.len() - 1 } else { e.len() };
+                for (k, f) in extra.iter().enumerate() {
+                    e.insert(at + k, f.clone());
+                }
+            }
+        }
         if pr.long > 0 && msgs.len() > 1 {
             // a big frame at the end of the second message (where that message is not the peer's last one, which
             // keeps its trailing empty frame)
@@ -231,7 +251,7 @@ fn scenario(pr: &Params) -> Verdict {
     let end = world::run(e3::HORIZON * (1 + pr.peers as u64 / 4));
     let mut v = Verdict::default();
     v.truncated = end != world::RunEnd::Quiescent;
-    let what = format!("{} socket, {} peers x {} messages{}{}", ty.name(), pr.peers, pr.msgs, if pr.truncated_peer { ", last peer cut mid-message" } else { "" }, if pr.split { ", split deliveries" } else { "" }).replace(" peers x", if pr.late_few { " peers (all idle but the last-attached and the middle one, which send once the receiver is parked) x" } else { " peers x" });
+    let what = format!("{} socket, {} peers x {} messages{}{}", ty.name(), pr.peers, pr.msgs, if pr.truncated_peer { ", last peer cut mid-message" } else { "" }, if pr.split { ", split deliveries" } else { "" }).replace(" peers x", [" peers x", " peers (each announcing an Identity of length 0) x", " peers (announcing no Identity) x"][pr.anon as usize % 3]).replace(" peers x", if pr.late_few { " peers (all idle but the last-attached and the middle one, which send once the receiver is parked) x" } else { " peers x" });
     let got = got.borrow().clone();
     for p in world::panics() {
         v.violate("panic", format!("{}: {}", what, p));
@@ -267,6 +287,23 @@ fn scenario(pr: &Params) -> Verdict {
             Err(e) => {
                 if e.contains("Invalid message format") {
                     envelope_errors += 1;
+                }
+            }
+        }
+    }
+    if pr.anon != 0 && ty == Ty::Router {
+        // the identities are the socket's own choice here: compared as a placeholder (their being distinct is C09's subject)
+        for msgs in per_peer.iter_mut() {
+            for m in msgs.iter_mut() {
+                if !m.is_empty() {
+                    m[0] = b"<assigned>".to_vec();
+                }
+            }
+        }
+        for msgs in expected.iter_mut() {
+            for m in msgs.iter_mut().flatten() {
+                if !m.is_empty() {
+                    m[0] = b"<assigned>".to_vec();
                 }
             }
         }
@@ -327,7 +364,7 @@ fn scenario(pr: &Params) -> Verdict {
 /// reset) and connects again under the same identity - three lives in a row, next to a peer that stays. The end of
 /// a life is either observed by the receiver (it is parked in recv when it happens) before the next life starts,
 /// or not. Every message of every life must be delivered, per life in order, exactly once.
-fn generations_scenario(ty: Ty, reset: bool, observed: bool, policy: u8) -> Verdict {
+fn generations_scenario(ty: Ty, reset: bool, observed: bool, still_open: bool, policy: u8) -> Verdict {
     world::reset(world::WorldCfg { nested_env: true, yields: true, select: false, policy, coop: false });
     let lives = 3usize;
     let mut conns: Vec<e3::RawConn> = Vec::new();
@@ -364,7 +401,7 @@ fn generations_scenario(ty: Ty, reset: bool, observed: bool, policy: u8) -> Verd
             };
             want.push(exp);
         }
-        if g + 1 < lives {
+        if g + 1 < lives && !still_open {
             if reset {
                 world::push_chunk(c.to_lib, world::Chunk::Err(std::io::ErrorKind::ConnectionReset));
             } else {
@@ -430,7 +467,11 @@ fn generations_scenario(ty: Ty, reset: bool, observed: bool, policy: u8) -> Verd
     let end = world::run(e3::HORIZON * 2);
     let mut v = Verdict::default();
     v.truncated = end != world::RunEnd::Quiescent;
-    let what = format!("{} socket, a peer with identity A living three lives ({} between them, {} by the receiver before the next life starts) next to a peer that stays", ty.name(), if reset { "connection reset" } else { "clean close" }, if observed { "observed" } else { "not yet observed" });
+    let what = if still_open {
+        format!("{} socket, identity A announced by three connections one after the other, each taking it over while the one before is still open, idle and registered (the receiver parked on it), next to a peer that stays", ty.name())
+    } else {
+        format!("{} socket, a peer with identity A living three lives ({} between them, {} by the receiver before the next life starts) next to a peer that stays", ty.name(), if reset { "connection reset" } else { "clean close" }, if observed { "observed" } else { "not yet observed" })
+    };
     for p in world::panics() {
         v.violate("panic", format!("{}: {}", what, p));
     }
@@ -516,7 +557,7 @@ async fn stalled_reader_case(ty: Ty) -> Vec<(String, String)> {
 }
 
 fn params_json(p: &Params) -> serde_json::Value {
-    json!({"type": p.ty.name(), "peers": p.peers, "msgs": p.msgs, "truncated_peer": p.truncated_peer, "split": p.split, "policy": p.policy, "coop": p.coop, "late_few": p.late_few, "long": p.long, "hdr_cut": p.hdr_cut})
+    json!({"type": p.ty.name(), "peers": p.peers, "msgs": p.msgs, "truncated_peer": p.truncated_peer, "split": p.split, "policy": p.policy, "coop": p.coop, "late_few": p.late_few, "long": p.long, "hdr_cut": p.hdr_cut, "anon": p.anon, "many": p.many})
 }
 
 fn params_from(v: &serde_json::Value) -> Option<Params> {
@@ -531,6 +572,8 @@ fn params_from(v: &serde_json::Value) -> Option<Params> {
         late_few: v["late_few"].as_bool().unwrap_or(false),
         long: v["long"].as_u64().unwrap_or(0) as usize,
         hdr_cut: v["hdr_cut"].as_u64().unwrap_or(0) as usize,
+        anon: v["anon"].as_u64().unwrap_or(0) as u8,
+        many: v["many"].as_u64().unwrap_or(0) as usize,
     })
 }
 
@@ -539,28 +582,42 @@ pub fn socket_jobs(tier: Tier) -> Vec<zvcore::explore::Job> {
     let mut jobs = Vec::new();
     for ty in [Ty::Pull, Ty::Sub, Ty::Dealer, Ty::Router, Ty::Rep, Ty::XPub] {
         let mut variants = vec![
-            Params { ty, peers: 2, msgs: 2, truncated_peer: false, split: true, policy: 0, coop: false, late_few: false, long: 0, hdr_cut: 0 },
-            Params { ty, peers: 2, msgs: 3, truncated_peer: true, split: false, policy: 0, coop: false, late_few: false, long: 0, hdr_cut: 0 },
-            Params { ty, peers: 1, msgs: 3, truncated_peer: false, split: true, policy: 0, coop: false, late_few: false, long: 0, hdr_cut: 0 },
+            Params { ty, peers: 2, msgs: 2, truncated_peer: false, split: true, policy: 0, coop: false, late_few: false, long: 0, hdr_cut: 0, anon: 0, many: 0 },
+            Params { ty, peers: 2, msgs: 3, truncated_peer: true, split: false, policy: 0, coop: false, late_few: false, long: 0, hdr_cut: 0, anon: 0, many: 0 },
+            Params { ty, peers: 1, msgs: 3, truncated_peer: false, split: true, policy: 0, coop: false, late_few: false, long: 0, hdr_cut: 0, anon: 0, many: 0 },
         ];
-        variants.push(Params { ty, peers: 3, msgs: 2, truncated_peer: true, split: true, policy: 0, coop: false, late_few: false, long: 0, hdr_cut: 0 });
+        variants.push(Params { ty, peers: 3, msgs: 2, truncated_peer: true, split: true, policy: 0, coop: false, late_few: false, long: 0, hdr_cut: 0, anon: 0, many: 0 });
         if thorough {
-            variants.push(Params { ty, peers: 3, msgs: 3, truncated_peer: false, split: false, policy: 0, coop: false, late_few: false, long: 0, hdr_cut: 0 });
+            variants.push(Params { ty, peers: 3, msgs: 3, truncated_peer: false, split: false, policy: 0, coop: false, late_few: false, long: 0, hdr_cut: 0, anon: 0, many: 0 });
         }
         // big frames: the peer's stream is cut after 1..8 bytes of the 9-byte header of a 300-byte frame (and after the
         // one flags byte of a 200-byte frame's 2-byte header)
         for hdr_cut in 1..=8usize {
-            let pr = Params { ty, peers: 2, msgs: if hdr_cut % 2 == 0 { 2 } else { 3 }, truncated_peer: false, split: true, policy: 0, coop: false, late_few: false, long: 300, hdr_cut };
+            let pr = Params { ty, peers: 2, msgs: if hdr_cut % 2 == 0 { 2 } else { 3 }, truncated_peer: false, split: true, policy: 0, coop: false, late_few: false, long: 300, hdr_cut, anon: 0, many: 0 };
             let pr2 = pr.clone();
             jobs.push(e3::job(format!("C05/{}/long300/hdr-cut{}", ty.name(), hdr_cut), params_json(&pr), tier.pick(0, 1), 20_000, move || scenario(&pr2)));
         }
         {
-            let pr = Params { ty, peers: 2, msgs: 2, truncated_peer: false, split: true, policy: 0, coop: false, late_few: false, long: 200, hdr_cut: 1 };
+            let pr = Params { ty, peers: 2, msgs: 2, truncated_peer: false, split: true, policy: 0, coop: false, late_few: false, long: 200, hdr_cut: 1, anon: 0, many: 0 };
             let pr2 = pr.clone();
             jobs.push(e3::job(format!("C05/{}/long200/hdr-cut1", ty.name()), params_json(&pr), tier.pick(0, 1), 20_000, move || scenario(&pr2)));
-            let pr = Params { ty, peers: 2, msgs: 3, truncated_peer: false, split: true, policy: 0, coop: false, late_few: false, long: 70_000, hdr_cut: 5 };
+            let pr = Params { ty, peers: 2, msgs: 3, truncated_peer: false, split: true, policy: 0, coop: false, late_few: false, long: 70_000, hdr_cut: 5, anon: 0, many: 0 };
             let pr2 = pr.clone();
             jobs.push(e3::job(format!("C05/{}/long70000/hdr-cut5", ty.name()), params_json(&pr), 0, 20_000, move || scenario(&pr2)));
+        }
+        // a message of very many frames (around a plausible per-call bound of 1024, and far beyond)
+        for many in [1030usize, 5000] {
+            let pr = Params { ty, peers: 2, msgs: 3, truncated_peer: false, split: false, policy: 0, coop: false, late_few: false, long: 0, hdr_cut: 0, anon: 0, many };
+            let pr2 = pr.clone();
+            jobs.push(e3::job(format!("C05/{}/many-frames{}", ty.name(), many), params_json(&pr), 0, 20_000, move || scenario(&pr2)));
+        }
+        // peers that announce an empty identity, or none: still one stream per connection
+        for anon in [1u8, 2] {
+            for peers in [2usize, 3] {
+                let pr = Params { ty, peers, msgs: 2, truncated_peer: false, split: peers == 2, policy: 0, coop: false, late_few: false, long: 0, hdr_cut: 0, anon, many: 0 };
+                let pr2 = pr.clone();
+                jobs.push(e3::job(format!("C05/{}/{}peers/anon{}", ty.name(), peers, anon), params_json(&pr), tier.pick(1, 2), 100_000, move || scenario(&pr2)));
+            }
         }
         let variants: Vec<Params> = variants
             .into_iter()
@@ -597,22 +654,31 @@ pub fn socket_jobs(tier: Tier) -> Vec<zvcore::explore::Job> {
                         json!({"scenario":"generations","type":ty.name(),"reset":reset,"observed":observed,"policy":policy}),
                         tier.pick(1, 2),
                         tier.pick(200_000, 2_000_000),
-                        move || generations_scenario(ty, reset, observed, policy),
+                        move || generations_scenario(ty, reset, observed, false, policy),
                     ));
                 }
             }
+        }
+        for policy in 0..3u8 {
+            jobs.push(e3::job(
+                format!("C05/generations/{}/still-open/policy{}", ty.name(), policy),
+                json!({"scenario":"generations","type":ty.name(),"reset":false,"observed":true,"still_open":true,"policy":policy}),
+                tier.pick(1, 2),
+                tier.pick(200_000, 2_000_000),
+                move || generations_scenario(ty, false, true, true, policy),
+            ));
         }
     }
     // scale family (not exhaustive in n): many peers under the default schedules
     for ty in [Ty::Pull, Ty::Sub, Ty::Dealer, Ty::Router, Ty::Rep, Ty::XPub] {
         for &peers in tier.pick(&[17usize, 65, 130][..], &[17usize, 65, 130, 257, 520][..]) {
             for (policy, coop) in [(0u8, false), (1, false), (2, false), (0, true)] {
-                let pr = Params { ty, peers, msgs: 2, truncated_peer: false, split: peers % 2 == 1, policy, coop, late_few: false, long: 0, hdr_cut: 0 };
+                let pr = Params { ty, peers, msgs: 2, truncated_peer: false, split: peers % 2 == 1, policy, coop, late_few: false, long: 0, hdr_cut: 0, anon: 0, many: 0 };
                 let pr2 = pr.clone();
                 jobs.push(e3::job(format!("C05/scale/{}/{}peers/policy{}{}", ty.name(), peers, policy, if coop { "/coop" } else { "" }), params_json(&pr), 0, 1000, move || scenario(&pr2)));
             }
             // the same number of connections, nearly all idle: two of them speak once the receiver is parked
-            let pr = Params { ty, peers, msgs: 2, truncated_peer: false, split: false, policy: 0, coop: false, late_few: true, long: 0, hdr_cut: 0 };
+            let pr = Params { ty, peers, msgs: 2, truncated_peer: false, split: false, policy: 0, coop: false, late_few: true, long: 0, hdr_cut: 0, anon: 0, many: 0 };
             let pr2 = pr.clone();
             jobs.push(e3::job(format!("C05/scale/{}/{}peers/late-few", ty.name(), peers), params_json(&pr), 0, 1000, move || scenario(&pr2)));
         }
@@ -624,7 +690,8 @@ pub fn replay_socket(v: &serde_json::Value) -> i32 {
     crate::replay::replay_e3(v, |p| {
         if p["scenario"] == "generations" {
             let (ty, reset, observed, policy) = (Ty::from_name(p["type"].as_str()?)?, p["reset"].as_bool()?, p["observed"].as_bool()?, p["policy"].as_u64()? as u8);
-            return Some(std::sync::Arc::new(move || generations_scenario(ty, reset, observed, policy)) as zvcore::explore::Scenario);
+            let still_open = p["still_open"].as_bool().unwrap_or(false);
+            return Some(std::sync::Arc::new(move || generations_scenario(ty, reset, observed, still_open, policy)) as zvcore::explore::Scenario);
         }
         let pr = params_from(p)?;
         Some(std::sync::Arc::new(move || scenario(&pr)) as zvcore::explore::Scenario)
